@@ -41,6 +41,12 @@ def step (_ : Unit) (fields : List String) (impl : String) : Unit × Reply :=
     -- connection - the response is delivered like any other (C07_delivery_when_registered)
     let ok := impl == "resume=true got=1 closed=true ordinary=0 panics=0"
     ((), ⟨"resume=true got=1 closed=true ordinary=0 panics=0", ok, true, ok, "-"⟩)
+  | ["edge", kind, _] =>
+    -- sendfail: the failed request leaves no entry behind, the late response goes to the ordinary routes;
+    -- handlersend: responses nobody waits for reach the handler, whose own SendIQ calls return (nothing blocked)
+    let want := if kind == "sendfail" then "senderr=true ordinary=1 nested=0 nestederr=0 panics=0 blocked=0"
+                else "senderr=false ordinary=2 nested=2 nestederr=0 panics=0 blocked=0"
+    ((), ⟨want, want == impl, true, want == impl, "-"⟩)
   | ["reuse", _, _] =>
     -- a re-used id: the answered first request and the pending second one each get exactly their response; the
     -- clean-up of the first request's cancelled context removes nothing of the second (C07_cleanup_only_own)
